@@ -194,8 +194,9 @@ def levels(spec, tier):
     voc, drop = spec["voc"], spec.get("drop3", ())
     voc3 = [w for w in voc if w not in drop]
     if tier == "thorough":
-        return [((0, 1, 2), voc, h, (False, True), spec["qfull"], spec["frags"]),
-                ((3,), voc, h[:max(2, d)], (False, True), spec["q"], spec["frags"][:2]),
+        return [((0, 1), voc, h, (False, True), spec["qfull"], spec["frags"]),
+                ((2,), voc, h, (False, True), spec["qfull"], spec["frags"][:2]),
+                ((3,), voc, h[:max(2, d)], (False, True), spec["q"], spec["frags"][:1]),
                 ((4,), spec["pruned"], h[:d], (False, True), spec["qshort"], spec["frags"][:1]),
                 ((5,), spec["pruned"], h[:d], (False,), spec["qshort"][:2], spec["frags"][:1])]
     return [((0, 1), voc, h, (False, True), spec["qfull"], spec["frags"][:1]),
@@ -973,7 +974,8 @@ def run(ctx):
         # (3) seeded random records
         n = 0
         lim = 6000 if ctx.tier == "quick" else 10 ** 8
-        while ctx.time_left() and n < lim:
+        floor_n = 1500  # the exhaustive layer may use up the soft budget: a minimum of random records is always run
+        while (ctx.time_left() or n < floor_n) and n < lim:
             n += 1
             plat = PLATFORMS[n % 6]
             case = random_case(rng, plat)
